@@ -52,8 +52,10 @@ func lockOp(cc *ssa.CallCommon) (op, key string, ok bool) {
 	}
 	full := callee.String()
 	switch full {
-	case "(*sync.Mutex).Lock", "(*sync.RWMutex).Lock", "(*sync.RWMutex).RLock":
+	case "(*sync.Mutex).Lock", "(*sync.RWMutex).Lock":
 		op = "lock"
+	case "(*sync.RWMutex).RLock":
+		op = "rlock"
 	case "(*sync.Mutex).Unlock", "(*sync.RWMutex).Unlock", "(*sync.RWMutex).RUnlock":
 		op = "unlock"
 	case "(*sync.Once).Do":
@@ -244,8 +246,15 @@ func heldLocksFrom(fn *ssa.Function, entry map[string]bool) map[ssa.Instruction]
 						switch op {
 						case "lock":
 							st[key] = true
+							delete(st, sharedMark+key)
+						case "rlock":
+							// held, but only shared: readers may run concurrently (the mark survives a merge only
+							// when every path holds the lock shared, so "exclusive" is never claimed wrongly as shared)
+							st[key] = true
+							st[sharedMark+key] = true
 						case "unlock":
 							delete(st, key)
+							delete(st, sharedMark+key)
 						}
 					}
 				}
@@ -261,6 +270,9 @@ func heldLocksFrom(fn *ssa.Function, entry map[string]bool) map[ssa.Instruction]
 	}
 	return res
 }
+
+// sharedMark prefixes the key of a lock that is held in read (shared) mode only.
+const sharedMark = "shared:"
 
 func subset(a, b map[string]bool) bool {
 	for k := range a {
